@@ -286,3 +286,38 @@ def units(prop):
                     'For#1': LoopSpec(t, modifies=[], name='For#1')},
              local_types={'start_file_name': Opt(STR)}, prop=prop),
     ]
+
+
+# ------------------------------------------------------------------ _get_upload_url_token: a FRESH upload URL for every attempt
+def upload_url_setup(b):
+    env(b)
+    me = b.me
+    del me._attrs['_get_upload_url_token']
+    me._lenient = True          # attributes a change starts to keep on the instance hold unknown state
+    b.url, b.token = sym.const(STR, 'fresh_uploadUrl'), sym.const(STR, 'fresh_uploadToken')
+
+    def resp_json(interp, st, args, kwargs):
+        st.emit('upload_url_decoded')
+        yield st, st.new_py('dict', {'uploadUrl': b.url, 'authorizationToken': b.token, 'bucketId': sym.const(STR, 'bucket_id')})
+
+    RESP.attrs = {'json': MethodModel('json', resp_json)}
+
+
+def upload_url_post(prop):
+    def post(res):
+        b = res.builder
+        for p in res.paths:
+            if p.kind != 'return':
+                continue                      # failures propagate to the retry decorators (C12.retry units)
+            posts = [e for e in p.events('http') if e.data['verb'] == 'post']
+            ok = len(posts) == 1 and isinstance(p.value, tuple) and len(p.value) == 2
+            # B2: an upload URL belongs to one storage pod; after a failed upload a NEW url must be requested.  Every call (= every
+            # attempt of upload / upload_stream) therefore asks b2_get_upload_url and returns the pair of THAT response
+            res.oblige(p, f'{prop}.b2.upload_url.requested_anew_by_every_call', z3.BoolVal(bool(ok)) if not ok else z3.And(
+                sym.lift(posts[0].data['url'], STR).z == z3.Concat(b.me.get('_auth').get('apiUrl').z, z3.StringVal('/b2api/v2/b2_get_upload_url')),
+                sym.lift(p.value[0], STR).z == b.url.z, sym.lift(p.value[1], STR).z == b.token.z))
+    return post
+
+
+def upload_url_unit(prop):
+    return Unit(f'{prop}.b2.get_upload_url_token', B2_PY, 'B2._get_upload_url_token', upload_url_setup, upload_url_post(prop), prop=prop)
